@@ -161,3 +161,31 @@ def stream_feed(case, rng, op, obj, src, pieces, places=("ip", "b2b")):
 
 def no_panic(results):
     return all(r[0] != "panic" and not (r[0] == "text" and r[1] == "6572722d6275742d6275666665722d6d6f646966696564") for r in results)
+
+
+ALL_KINDS = ["ofb", "belt"] + CTR32 + CTR64 + CTR128
+
+
+def pick_stream(rng, i, pred=lambda k: True):
+    """round-robin over the KINDS (so that BelT and every CTR flavour get an equal share), then a
+    random compiled configuration supporting the kind, preferring parallel widths > 1"""
+    kinds = [k for k in ALL_KINDS if pred(k)]
+    kind = kinds[i % len(kinds)]
+    cfgs = [(bs, w, dm) for bs, w, dm, ks in STREAM_CFGS if kind in ks]
+    wide = [c for c in cfgs if c[1] > 1]
+    bs, w, dm = rng.choice(wide if (wide and rng.random() < 0.8) else cfgs)
+    return bs, w, dm, kind
+
+
+def stream_iv(rng, bs, kind, key, dm):
+    """IV for a keystream cipher: counter field at a boundary for CTR; for BelT (when D inverts E) an IV
+    whose encryption s0 is near 2^128 - 1 or has its low 64-bit word near 2^64 - 1 half of the time"""
+    if kind == "belt" and dm == "inv" and rng.random() < 0.6:
+        import oracle
+        tc = oracle.Toy(key, dm)
+        if rng.random() < 0.5:
+            s0 = (1 << 128) - 1 - rng.choice([0, 1, 2, 3, 5, 8, 17])
+        else:
+            s0 = (rng.getrandbits(64) << 64) | ((1 << 64) - 1 - rng.choice([0, 1, 2, 3, 5, 8]))
+        return tc.D(s0.to_bytes(16, "little"))
+    return boundary_iv(rng, bs, kind)
